@@ -308,8 +308,8 @@ var (
 	protoSels  = []string{"nil", "none", "all", "slice", "exact-last", "exact-second"}
 	extOffers  = [][]string{nil, {"permessage-deflate; client_max_window_bits; server_no_context_takeover"}, {"permessage-deflate", "permessage-deflate; server_max_window_bits=10"}, {"x-unknown; p=1", "permessage-deflate; client_no_context_takeover"},
 		{"x-a; p=1", "x-bb; q=22; r", "permessage-deflate", "x-cccc; s=\"t u\"", "x-d"}}
-	extSels    = []string{"nil", "extension-all", "extension-none", "negotiate-accept", "negotiate-decline", "negotiate-error", "negotiate-wsflate", "negotiate-bare", "negotiate-first-param", "negotiate-own-params"}
-	bufs       = []int{0, 16, 17, 64, 256, 4096}
+	extSels = []string{"nil", "extension-all", "extension-none", "negotiate-accept", "negotiate-decline", "negotiate-error", "negotiate-wsflate", "negotiate-bare", "negotiate-first-param", "negotiate-own-params"}
+	bufs    = []int{0, 16, 17, 64, 256, 4096}
 )
 
 func subPairs() mon.Sub {
